@@ -336,9 +336,49 @@ def oracle_flags(cases, rng):
 # --------------------------------------------------------------------------
 # generic runner
 # --------------------------------------------------------------------------
+def cell(cid, body, nparams=0, cached=True, space=0, allow_none=False, defaults=()):
+    return {"cid": cid, "space": space, "nparams": nparams, "defaults": list(defaults), "cached": cached,
+            "allow_none": allow_none, "body": body}
+
+
+def witness_D20():
+    """caught failure of a callee leaves no dependency: c0 = try c1() except -> -1 ; c1 = 1 // r0 with r0 = 0;
+    then r0 = 5: a model that replayed only the edits answers 0, the live model still -1"""
+    w = {"nspaces": 2, "maxdepth": 50, "refs": [{"rid": 0, "space": 1, "val": 0}],
+         "cells": [cell(0, [["try", ["call", 1, []], ["const", -1]]]),
+                   cell(1, [["assign", ["bin", "fdiv", ["const", 1], ["refn", 0]]]], space=1)]}
+    case = {"world": w, "ops": [["eval", 0, [], "call"], ["setref", 0, 5]]}
+    qs = [["eval", 0, [], "call"]]
+    res = fw.run_driver("exec", [live_twin(case, 2, qs), edits_only_twin(case, 2, qs)])
+    a, b = res[0]["obs"][-1]["out"], res[1]["obs"][-1]["out"]
+    return not same_result(a, b, none_ok=False), "live model answers %r, edits-only replay %r" % (a, b)
+
+
+def witness_D33():
+    """an uncached cells may return None where a cached one raises NoneReturnedError"""
+    def w(flag):
+        return {"nspaces": 1, "maxdepth": 50, "refs": [],
+                "cells": [cell(0, [["assign", ["call", 1, []]], ["assign", ["const", 1]]]),
+                          cell(1, [["assign", ["const", None]]], cached=flag)]}
+    ops = [["eval", 0, [], "call"]]
+    res = fw.run_driver("exec", [{"world": w(True), "ops": ops}, {"world": w(False), "ops": ops}])
+    a, b = res[0]["obs"][-1]["out"], res[1]["obs"][-1]["out"]
+    return out_key(a) != out_key(b), "cached callee: %r, uncached callee: %r" % (a, b)
+
+
+WITNESSES = {
+    "C02": [("D20_caught_failure_no_dependency", witness_D20)],
+    "C09": [("D33_uncached_none_unchecked", witness_D33)],
+}
+
+
 def run_exec_property(prop, tier, rng, n_quick, n_thorough, gen_kw, weights, nops, oracles, rule, nontrivial,
                       diff=None, corpus=()):
     out = Outcome()
+    for key, fn in WITNESSES.get(prop, []):
+        fails, text = fn()
+        fw.witness_result(out, prop, key, fails, (fn.__doc__ or "").split(":")[0].strip() + " -- " + text)
+        out.notes.append("generator avoids the trigger of %s" % key)
     n = n_quick if tier == "quick" else n_thorough
     g = execlib.Gen(rng, **gen_kw)
     cases = list(corpus)
